@@ -243,7 +243,12 @@ def sortKey (d : Str) : Except PyErr (Nat × Nat) :=
             else (pyInt g1).map (fun n => (1, n)))
       | none => .ok (6, 0)
 
-def natStr (n : Nat) : Str := (toString n).toList
+def digitChar0 (d : Nat) : Char := Char.ofNat (48 + d)
+def natStrAux : Nat → Nat → Str → Str
+  | 0, _, acc => acc
+  | fuel+1, n, acc => if n / 10 = 0 then digitChar0 (n % 10) :: acc else natStrAux fuel (n / 10) (digitChar0 (n % 10) :: acc)
+/-- decimal rendering (`str(int)`), structurally recursive so that the kernel can evaluate it -/
+def natStr (n : Nat) : Str := natStrAux (n + 1) n []
 /-- the five decimal digits of a number below 100000 -/
 def pad5Digits (n : Nat) : List Nat := [n / 10000 % 10, n / 1000 % 10, n / 100 % 10, n / 10 % 10, n % 10]
 def digitChar (d : Nat) : Char := Char.ofNat (48 + d)
